@@ -159,7 +159,16 @@ func (rt *runtime) cmplEvaluateNodeBinaryExpression(node *nodeBinaryExpression) 
 	}
 
 	// Both operands are read (GetValue) before either is converted (11.5-11.10).
-	return rt.calculateBinaryExpression(node.operator, leftValue, rt.cmplEvaluateNodeExpression(node.right).resolve())
+	rightValue := rt.cmplEvaluateNodeExpression(node.right).resolve()
+	if (node.operator == token.IN || node.operator == token.INSTANCEOF) && !rightValue.IsObject() {
+		// raised here, where the position of the expression is known
+		operator := "in"
+		if node.operator == token.INSTANCEOF {
+			operator = "instanceof"
+		}
+		panic(rt.panicTypeError("invalid kind %s for %s (expected object)", rightValue.kind, operator, at(node.idx)))
+	}
+	return rt.calculateBinaryExpression(node.operator, leftValue, rightValue)
 }
 
 func (rt *runtime) cmplEvaluateNodeBinaryExpressionComparison(node *nodeBinaryExpression) Value {
